@@ -1,6 +1,7 @@
 CONSTANTS
 NS = 1
 MaxEv = 7
+MaxUA = 1
 AllowConnLost = FALSE
 Mutant = 0
 INIT Init
